@@ -313,18 +313,141 @@ def c13():
     ]
 
 
+def c05_e1():
+    a = ("E1 corpus = an enumeration of real programs, each decided over all populations 0..2 per archetype; the matching RULE for all declarations/queries within bounds is E2's job",)
+    b = "world of 4 archetypes over 4 overlapping component types; 9 query shapes (components, OneOf, typed/wild/dynamic entity and direct parameters); populations <= 2 per archetype"
+    names = [("c05_iter_single_component", Q), ("c05_iter_two_components", T), ("c05_iter_borrow_one_of", Q), ("c05_iter_component_and_one_of", Q),
+             ("c05_iter_typed_entity", T), ("c05_iter_borrow_wild_and_direct", T), ("c05_find_unmatched", Q), ("c05_find_borrow_unmatched", T),
+             ("c05_iter_destroy_one_of", Q)]
+    return [J(h, t, 200, what="real query over a real 4-archetype world: closure runs for exactly the matching archetypes with their own columns", bounds=b, assumes=a) for h, t in names]
+
+
+PANIC_BORROW = (("placeholder message", "panic_already"),)
+
+
+def c11():
+    a = ("both archetypes hold 2 entities in an arbitrary Inv arrangement", "release of guards BY UNWINDING is std's Ref/RefMut Drop guarantee (Kani cannot unwind)")
+    b = "2 archetypes x 2 columns (one component type shared), 2 entities each; access kinds: borrow_slice(_mut), Borrow::component(_mut), ecs_find_borrow!, ecs_iter_borrow!, clone; nesting depth 2"
+    jobs = []
+    ok = ["c11_ok_slice_s_tri_p", "c11_ok_slice_m_tri_p", "c11_ok_slice_m_tri_pad", "c11_ok_slice_s_other_q", "c11_ok_slice_m_other_p",
+          "c11_ok_comp_s_tri_pad", "c11_ok_comp_m_tri_p", "c11_ok_comp_m_other_q", "c11_ok_comp_s_other_p",
+          "c11_ok_find_s_tri_p", "c11_ok_find_m_tri_pad", "c11_ok_find_m_other_p", "c11_ok_find_s_other_q",
+          "c11_ok_iter_s_tri_pad", "c11_ok_iter_m_tri_p", "c11_ok_iter_m_other_q", "c11_ok_iter_s_other_p"]
+    quick_ok = {"c11_ok_slice_m_tri_p", "c11_ok_comp_m_other_q", "c11_ok_find_m_tri_pad", "c11_ok_iter_m_tri_p", "c11_ok_iter_s_other_p"}
+    for h in ok:
+        jobs.append(J(h, Q if h in quick_ok else T, 200, what="outer access held open, ARBITRARY non-conflicting inner access (33 cells at once) succeeds with right values", bounds=b, assumes=a))
+    rel = ["c11_released_slice_m_tri_p", "c11_released_comp_m_other_q", "c11_released_find_m_tri_pad", "c11_released_iter_m_other_p",
+           "c11_released_slice_s_tri_pad", "c11_released_find_s_other_p"]
+    for i, h in enumerate(rel):
+        jobs.append(J(h, Q if i in (0, 3) else T, 150, what="after the outer access ended every formerly conflicting access succeeds", bounds=b, assumes=a))
+    import re, os
+    src = open(os.path.join(os.path.dirname(os.path.dirname(os.path.abspath(__file__))), "kani_gecs", "src", "c11.rs")).read()
+    cells = re.findall(r"^\s*(c11_panic_\w+):", src, re.M)
+    quick_p = {"c11_panic_slice_m_slice_s", "c11_panic_comp_s_comp_m", "c11_panic_find_m_find_m", "c11_panic_iter_s_iter_m",
+               "c11_panic_slice_m_clone", "c11_panic_iter_m_clone", "c11_panic_find_s_comp_m", "c11_panic_comp_m_iter_m"}
+    for h in cells:
+        jobs.append(J(h, Q if h in quick_p else T, 30, what="conflicting nested access panics (already borrowed); nothing after it is reachable", bounds=b, assumes=a,
+                      expect_fail=PANIC_BORROW))
+    return jobs
+
+
+def c14_e1():
+    b = "all 2^64 entity handle values; direct handles of the two declared archetypes, all indices < 2^24 and versions; world W3 (ids 3, 254)"
+    return [
+        J("c14_entity_conversions", Q, 60, what="from_raw/raw, TryFrom/from_any/into_any, reference casts, generated SelectEntity/SelectArchetype/__SelectTotal tables, Eq/Hash", bounds=b),
+        J("c14_direct_conversions", Q, 60, what="same for direct handles and SelectEntityDirect", bounds=b),
+        J("c14_created_ids", Q, 100, what="archetype_id() of created handles == ARCHETYPE_ID; From<Entity<A>> for Select*", bounds=b, assumes=(INV_ASSUME,)),
+    ]
+
+
+def c15_e1():
+    b = "one declaration with 6 archetypes (implicit, ascending, descending explicit ids, 255) and per-archetype explicit component ids; symbolic id / handle into the generated tables"
+    return [J("c15_constants_agree", Q, 60, what="ARCHETYPE_ID / COMPONENT_ID / ecs_component_id! / archetype_id() / Select* agree with each other and the discriminant rule on a real expansion", bounds=b)]
+
+
+def c17():
+    a = (INV_ASSUME, NOOVF, "logs hold 0 or 1 earlier create+destroy pair before the step (produced through the public API)")
+    b = "feature events; capacity N <= 3; logs <= 6 entries; world iterators over 3 archetypes with log lengths 0..2 each"
+    f = ("events",)
+    def j(h, t, c, w):
+        return J(h, t, c, what=w, bounds=b, assumes=a, features=f)
+    return [
+        j("c17_delta_create_2", Q, 150, "create appends exactly the returned handle to the created log"),
+        j("c17_delta_within_2", T, 150, "create_within_capacity: Ok appends, Err appends nothing"),
+        j("c17_delta_destroy_wtyped_2", T, 200, "World::destroy(Entity) appends exactly the destroyed handle; miss appends nothing"),
+        j("c17_delta_destroy_wany_2", Q, 200, "World::destroy(EntityAny)"),
+        j("c17_delta_destroy_typed_3", T, 300, "Archetype::destroy(Entity), N=3"),
+        j("c17_delta_destroy_any_2", T, 200, "Archetype::destroy(EntityAny)"),
+        j("c17_delta_destroy_direct_2", Q, 200, "destroy(EntityDirect)"),
+        j("c17_delta_destroy_directany_2", T, 200, "destroy(EntityDirectAny)"),
+        j("c17_delta_reads_2", T, 100, "queries and reads never touch the logs"),
+        j("c17_iter_destroy_2", Q, 200, "ecs_iter_destroy! logs each destruction once, in order"),
+        j("c17_iter_destroy_3", T, 400, "same, N=3"),
+        j("c17_clear_arch_clone_2", Q, 250, "Archetype::clear_events empties both logs, nothing else changes; clone carries the pending events"),
+        j("c17_clear_world_clone_2", T, 250, "World::clear_events"),
+        j("c17_world_iter_created", Q, 150, "World::iter_created = concatenation over archetypes, exact size_hint at every position"),
+        j("c17_world_iter_destroyed", T, 200, "World::iter_destroyed"),
+    ]
+
+
+FEATURE_SETS = [(), ("events",), ("wrapping_version",), ("c32",), ("events", "wrapping_version"), ("events", "c32"), ("wrapping_version", "c32"), ("events", "wrapping_version", "c32")]
+
+
+def c19():
+    b = "core harnesses (base, create, growth, destroy x2 key kinds, forged lookup, clone, drop counting, iter_destroy, overflow boundary) re-decided per feature set x debug-assertions {on, off}; capacity N <= 3"
+    core = [
+        ("c01::c01_base_foo_3", 40, (), ()),
+        ("c01::c01_create_foo_3", 200, (), ()),
+        ("c01::c01_grow_foo_1", 150, (), ()),
+        ("c01::c01_destroy_typed_foo_3", 150, (), ()),
+        ("c01::c01_destroy_wdirectany_foo_2", 200, (), ()),
+        ("c03::c03_forged_arch_foo_3", 150, (CLEAN_ENTITY,), ()),
+        ("c13::c13_clone_destroy_on_orig_foo_3", 250, (), ()),
+        ("c04::c04_destroy_any_3", 150, (), ()),
+        ("c04::c04_clone_3", 200, (), ()),
+        ("c07::c07_tri_direct_wild_2", 300, (), ()),
+        ("c08::c08_overflow_slot_typed_foo_3", 60, (), EXPECT_OVERFLOW),
+        ("c08::c08_overflow_arch_typed_foo_3", 60, (), EXPECT_OVERFLOW),
+        ("c19::c19_wide17_destroy_2", 300, (), ()),
+    ]
+    quick_sets = {((), True), ((), False), (("events", "wrapping_version", "c32"), True), (("events", "wrapping_version", "c32"), False)}
+    quick_core = {"c01::c01_create_foo_3", "c01::c01_destroy_typed_foo_3", "c03::c03_forged_arch_foo_3", "c04::c04_destroy_any_3",
+                  "c08::c08_overflow_slot_typed_foo_3", "c19::c19_wide17_destroy_2", "c13::c13_clone_destroy_on_orig_foo_3"}
+    jobs = []
+    for fs in FEATURE_SETS:
+        for dbg in (True, False):
+            for h, cost, allowed, expect in core:
+                if h.startswith("c19::c19_wide17") and "c32" not in fs:
+                    continue
+                exp = expect
+                if "wrapping_version" in fs:
+                    exp = ()   # no panic: the harness asserts wraparound + Inv instead
+                al = allowed if dbg else ()
+                tier = Q if ((fs, dbg) in quick_sets and h in quick_core) else T
+                jobs.append(Job(harness=h, tier=tier, cost=cost, features=fs, debug_assertions=dbg, allowed=tuple(al), expect_fail=tuple(exp),
+                                what="core harness re-decided under features=%s debug_assertions=%s" % ("+".join(fs) or "default", dbg), bounds=b,
+                                assumes=(INV_ASSUME, "feature c32 of the harness crate = gecs feature 32_components")))
+    return jobs
+
+
 PROPERTIES = {
     "C01": dict(jobs=c01, title="A handle resolves iff its entity is alive; stale handles never resolve"),
     "C02": dict(jobs=c02, title="Every access path returns the entity's own, latest component values"),
     "C03": dict(jobs=c03, title="Arbitrary, forged or foreign handles are memory-safe and never match by accident"),
+    "C05": dict(jobs=c05_e1, title="Queries act on exactly the matching archetypes"),
     "C04": dict(jobs=c04, title="Each component value is dropped exactly once"),
     "C06": dict(jobs=c06, title="Iteration visits every matching live entity exactly once"),
     "C07": dict(jobs=c07, title="ecs_iter_destroy! visits once, destroys exactly the flagged ones"),
     "C08": dict(jobs=c08, title="No handle is ever issued twice"),
     "C09": dict(jobs=c09, title="A direct handle never designates another entity and dies with any removal"),
     "C10": dict(jobs=c10, title="A panic leaves the world consistent"),
+    "C11": dict(jobs=c11, title="Runtime-borrowed access panics instead of aliasing"),
     "C12": dict(jobs=c12, title="len and capacity are exact"),
     "C13": dict(jobs=c13, title="A cloned world is identical and independent"),
+    "C14": dict(jobs=c14_e1, title="Handle conversions are lossless"),
+    "C15": dict(jobs=c15_e1, title="Ids follow the discriminant rule"),
+    "C17": dict(jobs=c17, title="Event logs are exact"),
+    "C19": dict(jobs=c19, title="Features and profiles change nothing else"),
 }
 
 
